@@ -27,7 +27,7 @@ func init() {
 		Rule: "case = one history on one UE context: algorithm pair (NIA1|NIA2)x(NEA0|NEA1|NEA2) by index, random keys, 300 (quick) / 700 (thorough) operations, each = (plain NAS message from the emulator's constructors with " +
 			"length-controlled containers, header type 1..4 or 'no security context', new-context flag); one history in eight starts 16 messages before the 2^24 wrap. After every call the monitor checks the SQN octet, the MAC under the shadow COUNT, " +
 			"clear/ciphered payload as the header type says, exact recovery of the plain message, and the counter accessors. Case 0 checks the Count type against integer arithmetic (all 2^24+300 AddOne steps in thorough). " +
-			"distinct = hash(keys, operation sequence); non-trivial = history with >= 2 protected messages",
+			"One history in 48 is BULK (300 messages of 20..60 KiB under NIA2 with NEA2 / NEA0: 12 MiB per process) for the long-horizon retention oracle; downlink messages and other UEs' refused attempts are interleaved. distinct = hash(keys, operation sequence); non-trivial = history with >= 2 protected messages",
 		Assumptions: []string{
 			"BEARER = 1 (3GPP access), DIRECTION = 0 (uplink); NIA0 is not a supported pair (the library has no NIA0 uplink path)",
 			"plain messages are well-formed 5GMM messages accepted by the library's plain codec (EncodeNasPduWithSecurity decodes and re-encodes them)",
